@@ -72,16 +72,20 @@ example : encodeUtf16BE [0x41, 0x4E2D, 0x1F600, 0x10FFFF] =
 
 /-! ## Numerals (ISO 32000-1 Table 159) -/
 
-/-- `format_int_roman` is the subtractive-notation numeral for EVERY `n ≥ 1`: the three low digits
-by a kernel-evaluated sweep against the regenerated ROMAN_* tables, the thousands (any number of
-them: 4000 ↦ `mmmm`) in general.  (Round 6; the code asserted `value < 4000` before the fix.) -/
-theorem roman_correct_all (n : Nat) (h0 : 0 < n) :
+/-- `format_int_roman` is the subtractive-notation numeral for EVERY `0 < n < ROMAN_MAX` (the bound
+translated from utils.py; one million): the three low digits by a kernel-evaluated sweep against the
+regenerated ROMAN_* tables, the thousands (any number of them: 4000 ↦ `mmmm`) in general.
+(Round 6; the pinned code asserted `value < 4000`.) -/
+theorem roman_correct_all (n : Nat) (h0 : 0 < n) (h1 : (n : Int) < ROMAN_MAX) :
     formatIntRoman (n : Int) = .ok (Spec.Labels.romanAux Spec.Labels.romanTable n) :=
-  formatIntRoman_all n h0
+  formatIntRoman_all n h0 h1
+
+/-- The bound the code asserts is the bound of the specification's domain. -/
+theorem roman_max_spec : ROMAN_MAX = (Spec.Labels.romanMax : Int) := by decide
 
 theorem roman_correct (n : Nat) (h0 : 0 < n) (h1 : n < 4000) :
     formatIntRoman (n : Int) = .ok (Spec.Labels.romanAux Spec.Labels.romanTable n) :=
-  roman_correct_all n h0
+  roman_correct_all n h0 (by rw [roman_max_spec]; unfold Spec.Labels.romanMax; omega)
 
 /-- Sanity of the specification itself: reading the numeral back gives `n`. -/
 theorem roman_value (n : Nat) (h1 : n < 4000) :
@@ -94,12 +98,18 @@ theorem roman_value (n : Nat) (h1 : n < 4000) :
 theorem roman_value_all (n : Nat) :
     Spec.Labels.romanValue (Spec.Labels.romanAux Spec.Labels.romanTable n) = (n : Int) := romanValue_all n
 
-/-- For `value ≤ 0` the code raises `AssertionError` (modelled, not totalised away); since the
-round-6 fix there is no upper bound. -/
-theorem roman_outside (v : Int) (h : v ≤ 0) : formatIntRoman v = .error .assertion := by
+/-- Outside `0 < value < ROMAN_MAX` the code raises `AssertionError` (modelled, not totalised away):
+that is ALL it does there — no numeral of unbounded length is ever built. -/
+theorem roman_outside (v : Int) (h : v ≤ 0 ∨ ROMAN_MAX ≤ v) : formatIntRoman v = .error .assertion := by
   unfold formatIntRoman
-  have : ¬ (0 < v) := by omega
+  have : ¬ (0 < v ∧ v < ROMAN_MAX) := by omega
   simp [this]
+
+/-- Inside the asserted range the numeral is short: at most 1000 `m` and the low part. -/
+theorem roman_length_bound (n : Nat) (h1 : (n : Int) < ROMAN_MAX) :
+    n / 1000 < 1000 := by
+  have : ROMAN_MAX = 1000000 := rfl
+  omega
 
 /-- FULL STATEMENT for styles A/a: the letters numeral of every positive value is the one of
 Table 159 (one letter, repeated).  False on the pinned code: `alpha_cex`. -/
@@ -162,14 +172,14 @@ theorem roman_translated (v : Int) : genFormatIntRoman v = formatIntRoman v :=
   PdfVerif.Lemmas.LabelsGen.genFormatIntRoman_eq v
 
 open PdfVerif.LabelsGen in
-/-- Hence the translated code writes the subtractive-notation numeral for EVERY `n ≥ 1`, never
-exhausts its pass budget, and raises AssertionError for `n ≤ 0`. -/
-theorem roman_translated_correct (n : Nat) (h0 : 0 < n) :
+/-- Hence the translated code writes the subtractive-notation numeral for EVERY `0 < n < ROMAN_MAX`,
+never exhausts its pass budget, and raises AssertionError everywhere else. -/
+theorem roman_translated_correct (n : Nat) (h0 : 0 < n) (h1 : (n : Int) < ROMAN_MAX) :
     genFormatIntRoman (n : Int) = .ok (Spec.Labels.romanAux Spec.Labels.romanTable n) := by
-  rw [roman_translated]; exact roman_correct_all n h0
+  rw [roman_translated]; exact roman_correct_all n h0 h1
 
 open PdfVerif.LabelsGen in
-theorem roman_translated_outside (v : Int) (h : v ≤ 0) :
+theorem roman_translated_outside (v : Int) (h : v ≤ 0 ∨ ROMAN_MAX ≤ v) :
     genFormatIntRoman v = .error .assertion := by
   rw [roman_translated]; exact roman_outside v h
 
@@ -228,6 +238,9 @@ example : (PdfVerif.LabelsGen.genFormatIntRoman 4000).toOption = some [109, 109,
 example : (formatIntRoman 14999).toOption = some ((List.replicate 14 109) ++ [99, 109, 120, 99, 105, 120]) := by
   decide +kernel
 example : (PdfVerif.LabelsGen.genFormatIntRoman 0).toOption = none := by decide +kernel
+example : (PdfVerif.LabelsGen.genFormatIntRoman 1000000).toOption = none
+    ∧ ((PdfVerif.LabelsGen.genFormatIntRoman 999999).toOption.map List.length) = some 1005
+    ∧ (formatIntRoman 1000000000000).toOption = none := by decide +kernel
 example : (PdfVerif.LabelsGen.liftErr (PdfVerif.Gen.LabelCode.format_int_roman_body 9 3 [])).toOption = none := by
   decide +kernel
 example : (PdfVerif.LabelsGen.liftErr (PdfVerif.Gen.LabelCode.format_int_roman_body 47 1 [[105]])).toOption
@@ -318,7 +331,7 @@ theorem C17_label_strict (t : NumTree LabelDict) (n : Nat)
     simp [withZero]
 
 
-/-- The model's numeral is the ISO numeral: decimal, roman (upper/lower) for every `v > 0`,
+/-- The model's numeral is the ISO numeral: decimal, roman (upper/lower) for every `0 < v < ROMAN_MAX`,
 letters for `v ≤ 26` (beyond that the statement is false, see `alpha_cex`). -/
 theorem numeral_partial (style : Option Bytes) (v : Int) (num : Text)
     (h : numeral style v = some num)
@@ -330,7 +343,7 @@ theorem numeral_partial (style : Option Bytes) (v : Int) (num : Text)
     split at hr
     · rename_i hc
       have hv : v = (v.toNat : Int) := by omega
-      rw [hv, roman_correct_all v.toNat hc]
+      rw [hv, roman_correct_all v.toNat hc.1 (by rw [roman_max_spec]; omega)]
       simpa using hr
     · simp at hr
   have halpha : 0 < v → v ≤ 26 → ∀ r, alpha v.toNat = some r → formatIntAlpha v = .ok r := by
@@ -378,8 +391,8 @@ theorem numeral_partial (style : Option Bytes) (v : Int) (num : Text)
     simp at h
 
 /-- FULL STATEMENT for page labels: on every conforming tree, the label the code generates for
-page `i` is the one ISO 32000-1 12.4.2 defines (whenever that is defined: known style, positive
-roman value, prefix a valid text string).  False on the pinned code because of the letters
+page `i` is the one ISO 32000-1 12.4.2 defines (whenever that is defined: known style, roman
+value in `0 < v < ROMAN_MAX`, prefix a valid text string).  False on the pinned code because of the letters
 numeral (`C17_label_cex`); `C17_label_partial` proves it with values of the letter styles ≤ 26. -/
 def C17_label_statement : Prop :=
   ∀ (t : NumTree LabelDict) (n i : Nat) (l : Text), i < n →
@@ -453,8 +466,8 @@ theorem bijNumeral_unique (t t' : Text) (v : Int) (h : isBijNumeral t v) (h' : i
   rw [← a, ← b]
 
 /-- FULL numeral statement for the pinned code: wherever ISO 32000-1 defines a numeral (known style,
-positive value for roman and letters), `_format_page_label` returns normally — decimal and roman
-(any value ≥ 1) exactly as Table 159, letters as the unique bijective base-26 numeral. -/
+roman value in `0 < v < ROMAN_MAX`, positive value for letters), `_format_page_label` returns normally —
+decimal and roman exactly as Table 159, letters as the unique bijective base-26 numeral. -/
 theorem numeral_full (style : Option Bytes) (v : Int) (h : (numeral style v).isSome = true) :
     ∃ num, formatPageLabel v style = .ok num ∧ numeralPinned style v num := by
   have hletters : 0 < v → ∃ t, formatIntAlpha v = .ok t ∧ isBijNumeral t v := by
@@ -495,8 +508,8 @@ theorem numeral_full (style : Option Bytes) (v : Int) (h : (numeral style v).isS
       exact hnum
 
 /-- FULL page-label statement for the pinned code: on every conforming tree, for EVERY page whose
-label ISO 32000-1 12.4.2 defines (valid prefix, known style, positive value for roman/letters — no
-bound on values), the generator yields prefix ++ numeral with the numeral of `numeral_full`: the
+label ISO 32000-1 12.4.2 defines (valid prefix, known style, roman value in `0 < v < ROMAN_MAX`, positive
+letters value — no other bound), the generator yields prefix ++ numeral with the numeral of `numeral_full`: the
 ISO label for styles D/R/r/none, and for A/a the ISO label with the letters numeral replaced by the
 unique bijective base-26 one (the open finding, and nothing else). -/
 theorem C17_label_full (t : NumTree LabelDict) (n i : Nat) (hi : i < n)
